@@ -198,6 +198,11 @@ func formCatalogue() []formCase {
 			formCase{"ret-iface-" + ln, []Reg{mkReg("RetI_K0", l)}},
 			formCase{"in-all-tags-" + ln, []Reg{mkReg("Leaf_K1_a", l), mkReg("Leaf_K2_a", l, withGroup("g")), mkReg("Leaf_K2_b", l, withGroup("g")), mkReg("InIgn_S4", l)}},
 			formCase{"in-ignored-" + ln, []Reg{mkReg("Leaf_K1_b", l), mkReg("InIgn_K0", l)}},
+			formCase{"in-embedded-" + ln, []Reg{mkReg("Leaf_K1_b", l), mkReg("Leaf_K2_a", l), mkReg("Leaf_K3_a", l), mkReg("InEmb_K0", l)}},
+			formCase{"in-embedded-unregistered-" + ln, []Reg{mkReg("Leaf_K1_b", l), mkReg("InEmb_K0", l)}},
+			formCase{"in-embedded-ignored-" + ln, []Reg{mkReg("Leaf_K0_a", l), mkReg("Leaf_K1_a", l), mkReg("Leaf_K2_a", l, withGroup("g")), mkReg("InEmb_S4", l)}},
+			formCase{"in-embedded-both-" + ln, []Reg{mkReg("Leaf_K0_a", l), mkReg("Leaf_K1_a", l), mkReg("InEmb_K2", l)}},
+			formCase{"in-embedded-only-" + ln, []Reg{mkReg("Leaf_S0_a", l), mkReg("InEmb_S5", l)}},
 			formCase{"in-keyed-" + ln, []Reg{mkReg("Leaf_K1_c", l, withName("k")), mkReg("InU_3_2_Keyed", l)}},
 			formCase{"in-opt-present-" + ln, []Reg{mkReg("PosA_2_0", l), mkReg("InU_3_4_Opt", l)}},
 			formCase{"in-opt-absent-" + ln, []Reg{mkReg("InU_3_5_Opt", l)}},
